@@ -109,7 +109,7 @@ pub fn mutate_last_state_proof(
             .build()
     };
     let last = honest.last_header();
-    let op = rng.below(22);
+    let op = rng.below(25);
     let out = match op {
         0 => {
             let i = pick_idx(rng)?;
@@ -306,6 +306,29 @@ pub fn mutate_last_state_proof(
                 _ => return None,
             };
             (server::encode_proof(chain, &p2), format!("consistent-proof-without-one-header|{}", tag))
+        }
+        22 | 23 => {
+            // a consistent proof whose reorg section has the right count and the right last block but a hole:
+            // one header (possibly the second to last) is replaced by the block before the section
+            if parts.reorg.len() < 2 || parts.reorg[0] < 2 {
+                return None;
+            }
+            let mut p2 = parts.clone();
+            let i = if op == 22 { p2.reorg.len() - 2 } else { rng.pick_idx(p2.reorg.len() - 1) };
+            p2.reorg.remove(i);
+            p2.reorg.insert(0, parts.reorg[0] - 1);
+            (server::encode_proof(chain, &p2), format!("consistent-proof-reorg-hole|{}", if i == parts.reorg.len() - 2 { "before-last" } else { "inner" }))
+        }
+        24 => {
+            // same for the last-N section: a hole, compensated by one more block in front
+            if parts.last_n.len() < 3 || parts.last_n[0] < 2 || parts.all().contains(&(parts.last_n[0] - 1)) {
+                return None;
+            }
+            let mut p2 = parts.clone();
+            let i = rng.range(1, p2.last_n.len() as u64 - 2) as usize;
+            p2.last_n.remove(i);
+            p2.last_n.insert(0, parts.last_n[0] - 1);
+            (server::encode_proof(chain, &p2), "consistent-proof-lastn-hole".to_string())
         }
         20 => {
             // last header altered
